@@ -4082,7 +4082,8 @@ class GraphTraversalReachability:
                 # Commit not in store, skip
                 continue
 
-        # Collect all tree/blob objects
+        # Collect all tree/blob objects (the root trees themselves included)
+        result.update(tree_shas)
         result.update(self.get_tree_objects(tree_shas))
 
         # Exclude objects from exclude_commits if needed
